@@ -833,7 +833,10 @@ func (x *gen) boundary() {
 }
 
 func (P) Generate(g *core.Gen) {
-	x := &gen{g: g, r: g.R}
+	// core.NewRand is linear in the seed (seed k+1 is seed k's stream advanced by one draw, and variable-length
+	// consumption re-synchronises the two after a few cases), so fork once: the fork's state is a mixed
+	// 64-bit value of the seed and different seeds give unrelated streams.
+	x := &gen{g: g, r: g.R.Fork()}
 	r := x.r
 	// varints: every boundary and random
 	edges := []uint64{0, 1, 0xfc, 0xfd, 0xfe, 0xff, 0x100, 0xfffe, 0xffff, 0x10000, 0x10001, 0xfffffffe, 0xffffffff, 0x100000000, 0x100000001, 1 << 63, ^uint64(0) - 1, ^uint64(0)}
